@@ -121,10 +121,16 @@ func runC08(s *Sim) {
 	}
 
 	kind := c08Kinds[t.Choose("target", len(c08Kinds))]
-	behaviour := Pick(t, "behaviour", "drop", "answer", "delay", "misaddress", "disconnect", "silent-peer", "misaddress-spontaneous")
+	behaviour := Pick(t, "behaviour", "drop", "answer", "delay", "misaddress", "disconnect", "silent-peer", "misaddress-spontaneous", "outage")
 	position := t.Choose("position", 3) // which reply caused by the target is affected
-	ctxKind := Pick(t, "ctx", "bg", "deadline", "cancel")
+	ctxKind := Pick(t, "ctx", "bg", "deadline", "cancel", "cancel-yield")
 	target := c.mkOp(kind)
+	if ctxKind == "cancel-yield" {
+		// the caller gives up at an arbitrary instant inside the call (k-th yield point passed by any
+		// library goroutine), not at a quiescence point; the scheduler cancels at cancelAt otherwise
+		ctxKind = "cancel"
+		target.CancelAtYield = 1 + t.Choose("cancel-yield-k", 80)
+	}
 	target.CtxKind = ctxKind
 	if ctxKind == "deadline" {
 		target.Timeout = Pick(t, "deadline", 2*time.Second, 500*time.Millisecond, 7*time.Second)
@@ -140,6 +146,24 @@ func runC08(s *Sim) {
 	if behaviour == "silent-peer" {
 		l.Blackhole()
 		s.Stat("fault.silent-peer")
+	}
+	// outage: the link dies and every redial fails until the heal phase, so the calls overlap a
+	// reconnect loop that cannot succeed (only their contexts bound them)
+	startOutage := func(ll *Link) {
+		s.mu.Lock()
+		s.Net.DialFail = 1 << 30
+		s.mu.Unlock()
+		if ll.Alive() {
+			ll.Kill(errClosed, errClosed)
+		}
+		s.Stat("fault.outage-redials-failing")
+	}
+	outageStarted := false
+	if behaviour == "outage" && t.Bool("outage-before-target", 1, 2) {
+		startOutage(l)
+		outageStarted = true
+		s.Wait()
+		s.Advance(Pick(t, "outage-lead", time.Duration(0), 50*time.Millisecond, 2*time.Second))
 	}
 	pendBefore := map[*pend]bool{}
 	for _, p := range s.Broker.Pend {
@@ -226,6 +250,13 @@ func runC08(s *Sim) {
 				}
 				s.Stat("fault.disconnect")
 				s.Logf("fault: disconnect at %s", p.Desc)
+			case "outage":
+				s.Broker.Drop(p)
+				if !outageStarted {
+					outageStarted = true
+					startOutage(p.Link)
+					s.Logf("fault: outage (redials fail) at %s", p.Desc)
+				}
 			default:
 				s.Broker.Release(p, nil)
 			}
@@ -267,6 +298,9 @@ func runC08(s *Sim) {
 		}
 		return 0, false
 	}
+	if ctxKind == "cancel" && target.CancelT >= 0 {
+		bound = target.CancelT - target.InvokeT
+	}
 	if d, late := lateBy(target, bound); late {
 		rule := "C08.bound-exceeded"
 		switch {
@@ -301,6 +335,9 @@ func runC08(s *Sim) {
 	s.Nontrivial()
 
 	// ---- heal: the broker behaves again ----
+	s.mu.Lock()
+	s.Net.DialFail = 0
+	s.mu.Unlock()
 	for _, p := range delayed {
 		s.Broker.Release(p, nil)
 	}
